@@ -43,8 +43,11 @@ NatId(c) == CASE c = "GA1" -> "a1" [] c = "GA1adv" -> "a1" [] c = "GA2" -> "a2" 
 KidId(k) == IF k.id = "own" THEN NatId(k.c) ELSE k.id
 Other(c) == IF c \in {"GA1", "GA1adv"} THEN "GA2" ELSE "GA1"
 
+\* place "encwrap": the EncryptedAssertion IS a direct child of the root, but its plaintext is a wrapper element that
+\* contains the assertion (the wrapping is inside the ciphertext)
 KidOK(k, places) ==
     /\ k.c \in Contents /\ k.sig \in KidSigs /\ k.place \in places
+    /\ (k.place = "encwrap" => k.enc)
     /\ (k.sig = "own" => k.c \in Genuine)
     /\ (k.id = "a1" => k.c = "FA")
 
@@ -159,7 +162,7 @@ DoRootVerify(w) ==
    ELSE Rej(w, r)
 
 \* decryptAssertions (l.150-201): any EncryptedAssertion not directly under the root is fatal
-DecryptErr(in) == \E j \in DOMAIN in.kids : in.kids[j].enc /\ in.kids[j].place # "direct"
+DecryptErr(in) == \E j \in DOMAIN in.kids : in.kids[j].enc /\ in.kids[j].place \notin {"direct", "encwrap"}
 
 DoSignedDecrypt(w) == IF DecryptErr(w.in) THEN Rej(w, "enc_parent") ELSE [w EXCEPT !.pc = "SignedDecode"]
 
@@ -178,7 +181,7 @@ DoUnsignedLoop(w) ==
    LET ord == AfterDecrypt(w.in) IN
    IF w.i > Len(ord) THEN [w EXCEPT !.pc = "Validate"]
    ELSE LET k == w.in.kids[ord[w.i]] IN
-        IF k.place = "wrapped" THEN Rej(w, "assertion_parent")
+        IF k.place \in {"wrapped", "encwrap"} THEN Rej(w, "assertion_parent")   \* encwrap: the decrypted wrapper now sits under the root
         ELSE IF k.place = "nested" THEN Rej(w, "missing")        \* the unsigned carrier is reached first
         ELSE LET r == KidVerify(k) IN
              IF r # "ok" THEN Rej(w, r)
@@ -242,8 +245,8 @@ C04_OK(cfg, in, o) ==
 
 C07_OK(cfg, in, o) ==
    (o.res = "accept" /\ ~cfg.skip) =>
-      /\ \A j \in DOMAIN in.kids : in.kids[j].enc => in.kids[j].place = "direct"
-      /\ \A j \in DOMAIN in.kids : (in.kids[j].enc /\ ~RootGenuine(in)) => OwnSigned(in.kids[j])
+      /\ \A j \in DOMAIN in.kids : in.kids[j].enc => in.kids[j].place \in {"direct", "encwrap"}
+      /\ \A j \in DOMAIN in.kids : (in.kids[j].enc /\ ~RootGenuine(in)) => (in.kids[j].place = "direct" /\ OwnSigned(in.kids[j]))
 
 \* C02 (fragment visible here): a root signature that names the root and does not verify is fatal
 C02_OK(cfg, in, o) ==
